@@ -1,6 +1,6 @@
 SPECIFICATION TraceSpec
 CONSTANTS
-  Names = {"n1","n2","n3","n4","n5","n6","n7","n8"}
+  Names = {"n1","n2","n3","n4","n5","n6","n7","n8","aq","ba","cQ","dA","e1"}
   Limits = {0}
   Deadlines = {0}
   TrigSets = {{}}
